@@ -1,6 +1,7 @@
 import DmrVerif.Driver.Loop
 import DmrVerif.Driver.Bptc
 
-/-! model driver for property C02 -/
+/-! model driver for property C02: the stateless entry points (`bptc.*`) and histories of calls over the
+objects handed out so far (`bh.*` operations thread a `Bptc.Store` through the lines of one run) -/
 
-def main : IO Unit := Dmr.Driver.runMain [Dmr.Driver.bptcOp]
+def main : IO Unit := Dmr.Driver.runMainS Dmr.Driver.bptcStep Dmr.Bptc.Store.empty
